@@ -102,4 +102,6 @@ def Transcript.stream (t : Transcript) (P : Prims) (L : SealLaws P) (cls : Ciphe
 /-- a record whose length field says its length (RFC 5246 §6.2.1: fragment ≤ 2^14 + 2048 < 2^16) -/
 def WholeRecord (r : Bytes) : Prop := 5 ≤ r.length ∧ r.length = 5 + TlsFraming.hdrLen r
 
+instance (r : Bytes) : Decidable (WholeRecord r) := by unfold WholeRecord; infer_instance
+
 end TLX.Spec.TlsConnection
